@@ -285,8 +285,19 @@ func runC20(r *Run, replay *Case) {
 		n = 30000
 	}
 	for i := 0; i < n; i++ {
-		r.Add(c20Eval(g.doc(), nil))
+		d := g.doc()
+		r.Add(c20Eval(d, nil))
+		if i%2 == 0 {
+			r.Add(c20ModelCase(d, nil))
+		}
 	}
+	for _, s := range []string{"plain *em* text", "a < b & c", "{{ name }} {{secret}}", "# Hello <there>", "`{{ x }}` and `<b>`", c20AllKinds} {
+		r.Add(c20ModelCase(s, nil))
+		for _, t := range c20Templates {
+			r.Add(c20ModelCase(s, map[string]string{t: "<x-" + strings.ReplaceAll(t, "_", "-") + " :data-c=\"content\">{{ level }}</x-" + strings.ReplaceAll(t, "_", "-") + ">"}))
+		}
+	}
+	c20HeadingIDs(r)
 	// never fails: arbitrary byte strings
 	m := 500
 	if r.Thorough() {
